@@ -58,94 +58,95 @@ Lemma ds_Handle_spec consistent conv_ok upd_ok :
   ds_Handle consistent conv_ok upd_ok = handle_spec consistent conv_ok upd_ok.
 Proof. unfold ds_Handle, handle_spec. cbv zeta. destruct consistent, conv_ok, upd_ok; reflexivity. Qed.
 
-Section Handler.
-  Variables (bytes prop rule mgr : Type).
-  Variable convert : bytes -> conv prop.
-  Variable peq : prop -> prop -> bool.
-  Variable typed : prop -> option (list (option rule)).
-  Variable load : list (option rule) -> mgr -> mgr * lres.
-  Variable clear : mgr -> mgr * lres.
+Definition conv_ok {prop} (c : conv prop) : bool := match c with CErr => false | _ => true end.
+Definition real_of {prop} (c : conv prop) : option prop := match c with CVal p => Some p | _ => None end.
+Definition lres_ok (r : lres) : bool := match r with LOk => true | _ => false end.
+Definition ret_code (o : outcome) : Z := match o with Returned RNil => 0 | _ => 1 end.
 
-  Definition conv_ok (c : conv prop) : bool := match c with CErr => false | _ => true end.
-  Definition real_of (c : conv prop) : option prop := match c with CVal p => Some p | _ => None end.
-  Definition lres_ok (r : lres) : bool := match r with LOk => true | _ => false end.
+(* the actions on (lastUpdateProperty, manager); `real` = what the converter returned, `lastp` =
+   the local lastProperty (read before isPropertyConsistent); action 2 is the regenerated
+   isPropertyConsistent run on the handler's memory *)
+Definition hact {prop rule mgr} (peq : prop -> prop -> bool) (typed : prop -> option (list (option rule)))
+    (load : list (option rule) -> mgr -> mgr * lres) (clear : mgr -> mgr * lres)
+    (real lastp : option prop) (a : leaf_act) (s : option prop * mgr) : option prop * mgr :=
+  match a with
+  | (2, _) => if existsb (fun b => fst b =? 2) (snd (ds_isPropertyConsistent (consistent peq real (fst s)) 0))
+              then (real, snd s) else s
+  | (3, _) => (fst s, fst (updater typed load clear real (snd s)))
+  | (4, _) => (lastp, snd s)
+  | _ => s
+  end.
+Definition hrun {prop rule mgr} (peq : prop -> prop -> bool) (typed : prop -> option (list (option rule)))
+    (load : list (option rule) -> mgr -> mgr * lres) (clear : mgr -> mgr * lres)
+    (real lastp : option prop) (tr : list leaf_act) (s : option prop * mgr) : option prop * mgr :=
+  fold_left (fun s a => hact peq typed load clear real lastp a s) tr s.
 
-  (* the actions on (lastUpdateProperty, manager); `real` = what the converter returned, `lastp` =
-     the local lastProperty (read before isPropertyConsistent); action 2 is the regenerated
-     isPropertyConsistent run on the handler's memory *)
-  Definition hact (real lastp : option prop) (a : leaf_act) (s : option prop * mgr) : option prop * mgr :=
-    match a with
-    | (2, _) => if existsb (fun b => fst b =? 2) (snd (ds_isPropertyConsistent (consistent peq real (fst s)) 0))
-                then (real, snd s) else s
-    | (3, _) => (fst s, fst (updater typed load clear real (snd s)))
-    | (4, _) => (lastp, snd s)
-    | _ => s
-    end.
-  Definition hrun (real lastp : option prop) (tr : list leaf_act) (s : option prop * mgr) : option prop * mgr :=
-    fold_left (fun s a => hact real lastp a s) tr s.
+(* Handle = the model's handle_body on every delivery whose converter and loader return normally,
+   for an arbitrary converter, DeepEqual, type switch and loader *)
+Theorem ds_Handle_refines {bytes prop rule mgr} (convert : bytes -> conv prop) (peq : prop -> prop -> bool)
+    (typed : prop -> option (list (option rule))) (load : list (option rule) -> mgr -> mgr * lres)
+    (clear : mgr -> mgr * lres) (s : state prop mgr) (src : bytes) :
+  convert src <> CPanic ->
+  snd (updater typed load clear (real_of (convert src)) (snd s)) <> LPanic ->
+  let real := real_of (convert src) in
+  let g := ds_Handle (consistent peq real (fst s)) (conv_ok (convert src))
+                     (lres_ok (snd (updater typed load clear real (snd s)))) in
+  (hrun peq typed load clear real (fst s) (snd g) s, fst g) =
+  (fst (handle_body convert peq typed load clear s src), ret_code (snd (handle_body convert peq typed load clear s src))).
+Proof.
+  intros Hc Hu. cbv zeta. rewrite ds_Handle_spec. unfold handle_spec, handle_body.
+  destruct s as [lastp m]. cbn [fst snd] in *.
+  destruct (convert src) as [| | |p] eqn:Ec; try congruence; cbn [conv_ok real_of negb] in *.
+  - reflexivity.
+  - destruct (consistent peq None lastp) eqn:Econs.
+    + cbn [hrun fold_left hact fst snd]. rewrite Econs, ds_isPropertyConsistent_spec. reflexivity.
+    + destruct (updater typed load clear None m) as [m' r] eqn:Eu. cbn [fst snd] in *.
+      destruct r; try congruence; cbn [lres_ok negb hrun fold_left hact fst snd];
+        rewrite Econs, ds_isPropertyConsistent_spec; cbn [snd existsb fst Z.eqb Pos.eqb orb]; rewrite Eu; reflexivity.
+  - destruct (consistent peq (Some p) lastp) eqn:Econs.
+    + cbn [hrun fold_left hact fst snd]. rewrite Econs, ds_isPropertyConsistent_spec. reflexivity.
+    + destruct (updater typed load clear (Some p) m) as [m' r] eqn:Eu. cbn [fst snd] in *.
+      destruct r; try congruence; cbn [lres_ok negb hrun fold_left hact fst snd];
+        rewrite Econs, ds_isPropertyConsistent_spec; cbn [snd existsb fst Z.eqb Pos.eqb orb]; rewrite Eu; reflexivity.
+Qed.
 
-  Definition ret_code (o : outcome) : Z := match o with Returned RNil => 0 | _ => 1 end.
+(* ================================================================== helper.go: updaters ===== *)
+(* 1 ClearRules() (its error is returned) . 2 rules = append(rules, &v) for each element of a []Rule .
+   4 LoadRules(rules); error 2 = UpdatePropertyError.  (Which local holds the list - `rules = val`,
+   `rules, ok := data.(...)` - is not an effect and is not recorded.) *)
+Definition updater_spec (clear_err : Z) (data_nil is_ptrs is_values load_ok : bool) : Z * list leaf_act :=
+  if data_nil then (clear_err, [A0 1]) else
+  if is_values then (if load_ok then (0, [A0 2; A0 4]) else (2, [A0 2; A0 4])) else
+  if is_ptrs then (if load_ok then (0, [A0 4]) else (2, [A0 4])) else (2, []).
 
-  (* Handle = the model's handle_body on every delivery whose converter and loader return normally *)
-  Theorem ds_Handle_refines (s : state prop mgr) (src : bytes) :
-    convert src <> CPanic ->
-    snd (updater typed load clear (real_of (convert src)) (snd s)) <> LPanic ->
-    let real := real_of (convert src) in
-    let g := ds_Handle (consistent peq real (fst s)) (conv_ok (convert src))
-                       (lres_ok (snd (updater typed load clear real (snd s)))) in
-    (hrun real (fst s) (snd g) s, fst g) =
-    (fst (handle_body convert peq typed load clear s src), ret_code (snd (handle_body convert peq typed load clear s src))).
-  Proof.
-    intros Hc Hu. cbv zeta. rewrite ds_Handle_spec. unfold handle_spec, handle_body.
-    destruct s as [lastp m]. cbn [fst snd] in *.
-    destruct (convert src) as [| | |p] eqn:Ec; try congruence; cbn [conv_ok real_of negb] in *.
-    - reflexivity.
-    - destruct (consistent peq None lastp) eqn:Econs.
-      + cbn [hrun fold_left hact fst snd]. rewrite Econs, ds_isPropertyConsistent_spec. reflexivity.
-      + destruct (updater typed load clear None m) as [m' r] eqn:Eu. cbn [fst snd] in *.
-        destruct r; try congruence; cbn [lres_ok negb hrun fold_left hact fst snd];
-          rewrite Econs, ds_isPropertyConsistent_spec; cbn [snd existsb fst Z.eqb Pos.eqb orb]; rewrite Eu; reflexivity.
-    - destruct (consistent peq (Some p) lastp) eqn:Econs.
-      + cbn [hrun fold_left hact fst snd]. rewrite Econs, ds_isPropertyConsistent_spec. reflexivity.
-      + destruct (updater typed load clear (Some p) m) as [m' r] eqn:Eu. cbn [fst snd] in *.
-        destruct r; try congruence; cbn [lres_ok negb hrun fold_left hact fst snd];
-          rewrite Econs, ds_isPropertyConsistent_spec; cbn [snd existsb fst Z.eqb Pos.eqb orb]; rewrite Eu; reflexivity.
-  Qed.
+Definition lres_code (r : lres) : Z := match r with LOk => 0 | _ => 1 end.
+(* the manager after the actions: 1 = ClearRules, 4 = LoadRules of the typed list *)
+Definition uact {rule mgr} (load : list (option rule) -> mgr -> mgr * lres) (clear : mgr -> mgr * lres)
+    (l : list (option rule)) (a : leaf_act) (m : mgr) : mgr :=
+  match a with
+  | (1, _) => fst (clear m)
+  | (4, _) => fst (load l m)
+  | _ => m
+  end.
 
-  (* ================================================================== helper.go: updaters ===== *)
-  (* 1 ClearRules() (its error is returned) . 2 rules = append(rules, &v) for each element of a []Rule .
-     3 rules = val (a []*Rule) . 4 LoadRules(rules); error 2 = UpdatePropertyError *)
-  Definition updater_spec (clear_err : Z) (data_nil is_ptrs is_values load_ok : bool) : Z * list leaf_act :=
-    if data_nil then (clear_err, [A0 1]) else
-    if is_values then (if load_ok then (0, [A0 2; A0 4]) else (2, [A0 2; A0 4])) else
-    if is_ptrs then (if load_ok then (0, [A0 3; A0 4]) else (2, [A0 3; A0 4])) else (2, []).
-
-  Definition lres_code (r : lres) : Z := match r with LOk => 0 | _ => 1 end.
-  (* the manager after the actions: 1 = ClearRules, 4 = LoadRules of the typed list *)
-  Definition uact (l : list (option rule)) (a : leaf_act) (m : mgr) : mgr :=
-    match a with
-    | (1, _) => fst (clear m)
-    | (4, _) => fst (load l m)
-    | _ => m
-    end.
-
-  (* every updater of this shape is the model's `updater` (type switch, ClearRules on nil, LoadRules, error wrapping) *)
-  Lemma updater_spec_refines (data : option prop) (m : mgr) (isv isp : bool) (l : list (option rule)) :
-    (forall p, data = Some p -> typed p = if isv || isp then Some l else None) ->
-    snd (updater typed load clear data m) <> LPanic ->
-    let g := updater_spec (lres_code (snd (clear m))) (match data with None => true | _ => false end) isp isv
-                          (lres_ok (snd (load l m))) in
-    (fold_left (fun m a => uact l a m) (snd g) m, fst g =? 0) =
-    (fst (updater typed load clear data m), lres_ok (snd (updater typed load clear data m))).
-  Proof.
-    intros Ht Hp. cbv zeta. unfold updater_spec, updater in *. destruct data as [p|].
-    - rewrite (Ht p eq_refl) in *. destruct isv, isp; cbn [orb] in *; try reflexivity;
-        destruct (load l m) as [m' r] eqn:El; destruct r; cbn [fst snd lres_ok fold_left uact Z.eqb] in *;
-        rewrite ?El; cbn [fst]; solve [reflexivity | congruence].
-    - destruct (clear m) as [m' r] eqn:El; destruct r; cbn [fst snd lres_ok lres_code fold_left uact Z.eqb] in *;
-        rewrite ?El; cbn [fst]; solve [reflexivity | congruence].
-  Qed.
-End Handler.
+(* every updater of this shape is the model's `updater` (type switch, ClearRules on nil, LoadRules, error wrapping) *)
+Lemma updater_spec_refines {prop rule mgr} (typed : prop -> option (list (option rule)))
+    (load : list (option rule) -> mgr -> mgr * lres) (clear : mgr -> mgr * lres)
+    (data : option prop) (m : mgr) (isv isp : bool) (l : list (option rule)) :
+  (forall p, data = Some p -> typed p = if isv || isp then Some l else None) ->
+  snd (updater typed load clear data m) <> LPanic ->
+  let g := updater_spec (lres_code (snd (clear m))) (match data with None => true | _ => false end) isp isv
+                        (lres_ok (snd (load l m))) in
+  (fold_left (fun m a => uact load clear l a m) (snd g) m, fst g =? 0) =
+  (fst (updater typed load clear data m), lres_ok (snd (updater typed load clear data m))).
+Proof.
+  intros Ht Hp. cbv zeta. unfold updater_spec, updater in *. destruct data as [p|].
+  - rewrite (Ht p eq_refl) in *. destruct isv, isp; cbn [orb] in *; try reflexivity;
+      destruct (load l m) as [m' r] eqn:El; destruct r; cbn [fst snd lres_ok fold_left uact Z.eqb] in *;
+      rewrite ?El; cbn [fst]; solve [reflexivity | congruence].
+  - destruct (clear m) as [m' r] eqn:El; destruct r; cbn [fst snd lres_ok lres_code fold_left uact Z.eqb] in *;
+      rewrite ?El; cbn [fst]; solve [reflexivity | congruence].
+Qed.
 
 Lemma ds_FlowUpdater_spec clear_err data data_nil is_ptrs is_values load_ok :
   ds_FlowUpdater clear_err data data_nil is_ptrs is_values load_ok = updater_spec clear_err data_nil is_ptrs is_values load_ok.
@@ -247,84 +248,80 @@ Lemma ds_file_doReadAndUpdate_spec handle_err read_ok :
   ds_file_doReadAndUpdate handle_err read_ok = if read_ok then (handle_err, [A0 1; A0 2]) else (1, [A0 1]).
 Proof. unfold ds_file_doReadAndUpdate. cbv zeta. destruct read_ok; reflexivity. Qed.
 
-Section FileSource.
-  Variables (bytes prop rule mgr : Type).
-  Variable convert : bytes -> conv prop.
-  Variable peq : prop -> prop -> bool.
-  Variable typed : prop -> option (list (option rule)).
-  Variable load : list (option rule) -> mgr -> mgr * lres.
-  Variable clear : mgr -> mgr * lres.
-  Variable empty_payload : bytes.
-  Let fstate := fstate bytes prop mgr.
+(* the actions on the model's file-datasource state; doReadAndUpdate (4) is the regenerated
+   function: ReadSource fails when the file is absent, else Handle(content) *)
+Definition fact {bytes prop rule mgr} (convert : bytes -> conv prop) (peq : prop -> prop -> bool)
+    (typed : prop -> option (list (option rule))) (load : list (option rule) -> mgr -> mgr * lres)
+    (clear : mgr -> mgr * lres) (empty_payload : bytes) (a : leaf_act) (st : fstate bytes prop mgr) : fstate bytes prop mgr :=
+  match a with
+  | (1, _) => deliver convert peq typed load clear st empty_payload
+  | (3, _) => set_mode st Closed
+  | (4, _) => if existsb (fun b => fst b =? 2)
+                   (snd (ds_file_doReadAndUpdate 0 (match f_file st with Some _ => true | None => false end)))
+              then match f_file st with Some c => deliver convert peq typed load clear st c | None => st end
+              else st
+  | _ => st
+  end.
+Definition frun_acts {bytes prop rule mgr} (convert : bytes -> conv prop) (peq : prop -> prop -> bool)
+    (typed : prop -> option (list (option rule))) (load : list (option rule) -> mgr -> mgr * lres)
+    (clear : mgr -> mgr * lres) (empty_payload : bytes) (tr : list leaf_act) (st : fstate bytes prop mgr) : fstate bytes prop mgr :=
+  fold_left (fun st a => fact convert peq typed load clear empty_payload a st) tr st.
 
-  (* the actions on the model's file-datasource state; doReadAndUpdate (4) is the regenerated
-     function: ReadSource fails when the file is absent, else Handle(content) *)
-  Definition fact (a : leaf_act) (st : fstate) : fstate :=
-    match a with
-    | (1, _) => deliver convert peq typed load clear st empty_payload
-    | (3, _) => set_mode st Closed
-    | (4, _) => if existsb (fun b => fst b =? 2)
-                     (snd (ds_file_doReadAndUpdate 0 (match f_file st with Some _ => true | None => false end)))
-                then match f_file st with Some c => deliver convert peq typed load clear st c | None => st end
-                else st
-    | _ => st
-    end.
-  Definition frun_acts (tr : list leaf_act) (st : fstate) : fstate := fold_left (fun st a => fact a st) tr st.
+(* which fsnotify op the model's event stands for *)
+Definition ev_rename (e : fevent) : bool := match e with EvRename => true | _ => false end.
+Definition ev_remove (e : fevent) : bool := match e with EvRemove => true | _ => false end.
 
-  (* which fsnotify op the model's event stands for *)
-  Definition ev_rename (e : fevent) : bool := match e with EvRename => true | _ => false end.
-  Definition ev_remove (e : fevent) : bool := match e with EvRemove => true | _ => false end.
+(* the retry loop driven to its end: watcher.Add succeeds iff the file is there *)
+Fixpoint retry_run (fuel : nat) (present : bool) (n : Z) : option (list leaf_act) :=
+  match fuel with
+  | O => None
+  | S f => match ds_file_retry_step present n with
+           | (LReturn _, tr) => Some tr          (* gave up: the goroutine returns *)
+           | (LBreak _, _) => Some []            (* watching again *)
+           | (LContinue n', _) => retry_run f present n'
+           end
+  end.
+Lemma retry_run_present : retry_run 7 true 0 = Some [].
+Proof. cbn [retry_run]. rewrite ds_file_retry_step_spec. reflexivity. Qed.
+Lemma retry_run_absent : retry_run 7 false 0 = Some [A0 3].
+Proof. Transparent two63 two64. cbn [retry_run]. rewrite !ds_file_retry_step_spec. reflexivity. Qed.
 
-  (* the retry loop driven to its end: watcher.Add succeeds iff the file is there *)
-  Fixpoint retry_run (fuel : nat) (present : bool) (n : Z) : option (list leaf_act) :=
-    match fuel with
-    | O => None
-    | S f => match ds_file_retry_step present n with
-             | (LReturn _, tr) => Some tr          (* gave up: the goroutine returns *)
-             | (LBreak _, _) => Some []            (* watching again *)
-             | (LContinue n', _) => retry_run f present n'
-             end
-    end.
-  Lemma retry_run_present : retry_run 7 true 0 = Some [].
-  Proof. cbn [retry_run]. rewrite ds_file_retry_step_spec. reflexivity. Qed.
-  Lemma retry_run_absent : retry_run 7 false 0 = Some [A0 3].
-  Proof. Transparent two63 two64. cbn [retry_run]. rewrite !ds_file_retry_step_spec. reflexivity. Qed.
-
-  (* event dispatch = process_event: the regenerated iteration, with the retry loop's outcome spliced
-     in where it is marked (a rename whose retries are exhausted ends the goroutine there) *)
-  Theorem ds_file_watch_refines (st : fstate) (e : fevent) :
-    let '(flow, tr) := ds_file_watch_step true true (ev_remove e) (ev_rename e) 0 true 0 in
-    let tr' := if ev_rename e
-               then match retry_run 7 (match f_file (frun_acts [A0 1] st) with Some _ => true | None => false end) 0 with
-                    | Some [] => tr
-                    | Some stop => [A0 1; A0 2] ++ stop
-                    | None => tr
-                    end
-               else tr in
-    frun_acts tr' st = process_event convert peq typed load clear empty_payload st e.
-  Proof.
-    rewrite ds_file_watch_step_spec. unfold watch_spec. cbn [Z.eqb].
-    destruct e; cbn [ev_rename ev_remove app].
-    - (* Write / Create / Chmod *)
-      unfold frun_acts, process_event, read_and_update. cbn [fold_left fact]. rewrite ds_file_doReadAndUpdate_spec.
-      destruct (f_file st); reflexivity.
-    - (* Rename *)
-      unfold process_event. cbn [frun_acts fold_left fact].
-      set (st1 := deliver convert peq typed load clear st empty_payload).
-      destruct (f_file st1) eqn:Ef.
-      + rewrite retry_run_present. unfold frun_acts, read_and_update. cbn [fold_left fact]. fold st1.
-        rewrite ds_file_doReadAndUpdate_spec, Ef. reflexivity.
-      + rewrite retry_run_absent. unfold frun_acts. cbn [app fold_left fact]. reflexivity.
-    - (* Remove *)
-      unfold process_event, frun_acts. cbn [fold_left fact]. reflexivity.
-  Qed.
-End FileSource.
+(* event dispatch = process_event: the regenerated iteration, with the retry loop's outcome spliced
+   in where it is marked (a rename whose retries are exhausted ends the goroutine there) *)
+Theorem ds_file_watch_refines {bytes prop rule mgr} (convert : bytes -> conv prop) (peq : prop -> prop -> bool)
+    (typed : prop -> option (list (option rule))) (load : list (option rule) -> mgr -> mgr * lres)
+    (clear : mgr -> mgr * lres) (empty_payload : bytes) (st : fstate bytes prop mgr) (e : fevent) :
+  let run := frun_acts convert peq typed load clear empty_payload in
+  let '(flow, tr) := ds_file_watch_step true true (ev_remove e) (ev_rename e) 0 true 0 in
+  let tr' := if ev_rename e
+             then match retry_run 7 (match f_file (run [A0 1] st) with Some _ => true | None => false end) 0 with
+                  | Some [] => tr
+                  | Some stop => [A0 1; A0 2] ++ stop
+                  | None => tr
+                  end
+             else tr in
+  run tr' st = process_event convert peq typed load clear empty_payload st e.
+Proof.
+  cbv zeta. rewrite ds_file_watch_step_spec. unfold watch_spec. cbn [Z.eqb].
+  destruct e; cbn [ev_rename ev_remove app].
+  - (* Write / Create / Chmod *)
+    unfold frun_acts, process_event, read_and_update. cbn [fold_left fact]. rewrite ds_file_doReadAndUpdate_spec.
+    destruct (f_file st); reflexivity.
+  - (* Rename *)
+    unfold process_event. cbn [frun_acts fold_left fact].
+    set (st1 := deliver convert peq typed load clear st empty_payload).
+    destruct (f_file st1) eqn:Ef.
+    + rewrite retry_run_present. unfold frun_acts, read_and_update. cbn [fold_left fact]. fold st1.
+      rewrite ds_file_doReadAndUpdate_spec, Ef. reflexivity.
+    + rewrite retry_run_absent. unfold frun_acts. cbn [app fold_left fact]. reflexivity.
+  - (* Remove *)
+    unfold process_event, frun_acts. cbn [fold_left fact]. reflexivity.
+Qed.
 
 (* ================================================================== names ===== *)
-Section Names.
 Import Coq.Strings.String.
-Local Open Scope string_scope.
-Local Open Scope list_scope.
+Open Scope string_scope.
+Open Scope list_scope.
 Lemma ds_Handle_params : LeafParams.ds_Handle = "consistent" :: "conv_1_nil" :: "upd_err_nil" :: nil.
 Proof. reflexivity. Qed.
 Lemma ds_HotspotParser_step_params : LeafParams.ds_HotspotParser_step =
@@ -336,7 +333,7 @@ Proof. reflexivity. Qed.
 Lemma ds_FlowUpdater_params : LeafParams.ds_FlowUpdater = "clear_err" :: "data" :: "data_nil" :: "is_ptrs" :: "is_values" :: "load_1_nil" :: nil.
 Proof. reflexivity. Qed.
 Lemma ds_file_watch_step_params : LeafParams.ds_file_watch_step =
-  "handle_err1_nil" :: "handle_err2_nil" :: "is_remove" :: "is_rename" :: "loop2_out_0" :: "read_err_nil" :: "select_case" :: nil.
+  "handle_err1_nil" :: "handle_err2_nil" :: "has_Remove" :: "has_Rename" :: "loop2_out_0" :: "read_err_nil" :: "select_case" :: nil.
 Proof. reflexivity. Qed.
 
 (* the constructed rule's fields, in the order of the action's arguments, are the wire schema's
@@ -350,7 +347,6 @@ Definition json_name (f : string) : string :=
 Lemma hotspot_fields_are_schema :
   map json_name LeafFields.ds_HotspotParser_step = map (fun kt => string_of_list_ascii (fst kt)) hotspot_schema.
 Proof. reflexivity. Qed.
-End Names.
 
 (* one traversal for all obligations (each Print Assumptions costs ~0.5 s in this environment) *)
 Definition C18_leaf_obligations := (
